@@ -8,12 +8,12 @@ from units import U
 
 ID = 'C09'
 LEVEL = 'proof'
-TIE = {'core.get_n_best': 'correspondence', 'util.sorted_votes': 'correspondence',
+TIE = {'approval.QuotaSelector.evaluate': 'correspondence', 'core.get_n_best': 'correspondence', 'util.sorted_votes': 'correspondence',
        'Plurality.evaluate': 'correspondence'}
 RULE = ('corpus first; exhaustive stream: every mapping of 1..k candidates into the pool {-1,0,1,2,1/2} '
         'x every n in 1..k+1 (k=4 quick, 5 thorough); random stream: 1..8 candidates, values int up to 1e30 / '
         'Fraction / Decimal with forced equal groups at the cut; each case run through core.get_n_best and '
-        'Plurality().evaluate. Outputs compared after canonicalisation (runs of equal-valued winners sorted, ties as '
+        'Plurality().evaluate; quota-selector stream: QuotaSelector x 7 named quotas x accept_equal x select/error. Outputs compared after canonicalisation (runs of equal-valued winners sorted, ties as '
         'sorted sets). non-trivial = at least two candidates share a value or n >= number of candidates or a value '
         'is non-integer/negative/beyond 2^53; distinct by hash of the canonical case')
 PARTIAL = []
@@ -129,6 +129,34 @@ def gen_random(rng, count):
         yield dict(mk(list(zip(ids, base)), n, via=rng.choice(['core', 'plurality']), kind=kind))
 
 
+QN = {1: 'hare', 2: 'hare_rounded', 3: 'droop', 4: 'hagenbach_bischoff', 5: 'hagenbach_bischoff_ceil',
+      6: 'hagenbach_bischoff_rounded', 7: 'imperiali'}
+
+
+def qs_model_line(c):
+    return '%d (%s %d %d %s %d)' % (U['quota_selector'], sx([c['quota']]), 1 if c['ae'] else 0, 1 if c['select'] else 0,
+                                    sx([[k, q(v)] for k, v in c['votes']]), c['n'])
+
+
+def qs_impl(c):
+    import votelib.evaluate.approval as ap
+    ev = ap.QuotaSelector(QN[c['quota']], accept_equal=c['ae'],
+                          on_more_over_quota='select' if c['select'] else 'error')
+    votes = {cname(k): int(q(v)) for k, v in c['votes']}
+    return ok(enc_sel(ev.evaluate(votes, c['n'])))
+
+
+def gen_qsel(rng, count):
+    for _ in range(count):
+        m = rng.randint(1, 7)
+        ids = list(range(1, m + 1))
+        rng.shuffle(ids)
+        pool = rng.choice([[10, 20, 30, 50], [1, 2, 3], [100, 100, 50, 25], [10 ** 30, 10 ** 30 + 1, 5 * 10 ** 29]])
+        votes = [[k, rng.choice(pool)] for k in ids]
+        yield dict(unit='quota_selector', quota=rng.randint(1, 7), ae=rng.random() < 0.5, select=rng.random() < 0.7,
+                   votes=votes, n=rng.randint(1, m + 1))
+
+
 def corpus():
     import os, json, glob
     for p in sorted(glob.glob(os.path.join(common.VERIF, 'corpus', ID, '*.json'))):
@@ -144,7 +172,11 @@ def explore(ctx, widen=1):
     ctx.differential('exhaustive-plurality', [dict(c, via='plurality') for c in gen_exhaustive(3)],
                      model_line, impl, canon, nontrivial)
     ctx.differential('random', gen_random(ctx.rng, ctx.n(1500, 30000) * widen), model_line, impl, canon, nontrivial)
+    ctx.differential('quota-selector', gen_qsel(ctx.rng, ctx.n(1500, 20000) * widen), qs_model_line, qs_impl, canon, nontrivial)
 
 
 def replay(ctx, case, stream=None):
-    ctx.differential('replay', [case], model_line, impl, canon, nontrivial)
+    if case.get('unit') == 'quota_selector':
+        ctx.differential('replay', [case], qs_model_line, qs_impl, canon, nontrivial)
+    else:
+        ctx.differential('replay', [case], model_line, impl, canon, nontrivial)
